@@ -202,6 +202,7 @@ def verify_target(repo_root: str, relpath: str, qualname: str, contract: dict, r
         eng = None
         all_unsupported, modelled, paths = [], set(), 0
         assumed_used, callee_used, ghost_hits = set(), set(), set()
+        dead_exits = []
         for vi, var in enumerate(variants):
             c2 = contract
             if var is not None:
@@ -218,6 +219,7 @@ def verify_target(repo_root: str, relpath: str, qualname: str, contract: dict, r
             modelled |= eng.stmts_modelled
             paths += eng.paths_done
             assumed_used |= eng.assumed_used
+            dead_exits += list(eng.dead_exits)
             callee_used |= eng.callee_used
             ghost_hits |= eng.ghost_hits
         eng.unsupported, eng.stmts_modelled, eng.paths_done = all_unsupported, modelled, paths
@@ -238,6 +240,9 @@ def verify_target(repo_root: str, relpath: str, qualname: str, contract: dict, r
         rep['stmts_modelled'] = len(eng.stmts_modelled & {n.lineno for n in body_stmts})
         rep['paths'] = eng.paths_done
         rep['assumed_used'] = sorted(assumed_used)
+        rep['dead_exit_paths'] = sorted(set(dead_exits))
+        if dead_exits and len(dead_exits) >= max(1, paths):
+            raise SpecError(f'{qualname}: every explored exit is unreachable under the accumulated assumptions (vacuous proof)')
         rep['lenient_skips'] = [dict(lineno=l, why=w) for l, w in getattr(eng, 'lenient_skips', [])]
         rep['callee_contracts_used'] = sorted(callee_used)
         rep['unsupported'] = [dict(lineno=l, why=w) for l, w in eng.unsupported]
